@@ -89,10 +89,11 @@ DistinctVertices(V) == Cardinality({V[i] : i \in DOMAIN V}) = Cardinality(DOMAIN
 (* every straddling grid edge carries exactly one vertex: a closed surface  *)
 (* separating the two ends of the edge must cross it.                       *)
 EdgeVertexIds(p, V) == {i \in DOMAIN V : IsEdgeVertex(p, V[i])}
-EdgeCover(p, V) ==
+EdgeCoverOn(p, V, se) ==          \* se = StraddlingEdges(p), computed once by the caller
   LET ev == EdgeVertexIds(p, V)
       es == {EdgeOfVertex(p, V[i]) : i \in ev}
-  IN Cardinality(es) = Cardinality(ev) /\ es = StraddlingEdges(p)
+  IN Cardinality(es) = Cardinality(ev) /\ es = se
+EdgeCover(p, V) == EdgeCoverOn(p, V, StraddlingEdges(p))
 
 (* ---- closed oriented 2-manifold (combinatorial) ------------------------------ *)
 FaceOK(ids, f) == /\ f[1] \in ids /\ f[2] \in ids /\ f[3] \in ids
@@ -100,7 +101,7 @@ FaceOK(ids, f) == /\ f[1] \in ids /\ f[2] \in ids /\ f[3] \in ids
 ValidFaces(ids, F) == \A i \in DOMAIN F : Len(F[i]) = 3 /\ FaceOK(ids, F[i])
 DirEdges(F) == {<<F[i][1], F[i][2]>> : i \in DOMAIN F} \cup {<<F[i][2], F[i][3]>> : i \in DOMAIN F}
                \cup {<<F[i][3], F[i][1]>> : i \in DOMAIN F}
-EdgeOnceE(E, F) == Cardinality(E) = 3 * Len(F)                \* no directed edge twice
+EdgeOnceE(E, F) == Cardinality(E) = 3 * Cardinality(DOMAIN F) \* no directed edge twice
 EdgeTwinE(E) == \A e \in E : <<e[2], e[1]>> \in E               \* the reverse of every edge is present
 EdgeOnce(F) == EdgeOnceE(DirEdges(F), F)
 EdgeTwin(F) == EdgeTwinE(DirEdges(F))
@@ -112,6 +113,27 @@ FaceClasses(F) == {Rotations(F[i]) : i \in DOMAIN F}
 Flip(f) == <<f[3], f[2], f[1]>>
 (* the mesh for the other gradient direction is the same mesh with every face reversed *)
 ReversedMesh(F1, F2) == Len(F1) = Len(F2) /\ FaceClasses(F1) = {Rotations(Flip(F2[i])) : i \in DOMAIN F2}
+
+(* ---- as-built deviation of the Lewiner kernel: membranes --------------------------- *)
+(* On some ambiguous cell faces (corners alternate around the face) both adjacent *)
+(* cells cover the face with the same two triangles in opposite orientations.     *)
+(* The zero-volume membrane puts four triangles on each of its edges, so the mesh *)
+(* is not a 2-manifold (found by this check: 34 of 40000 random multi-blob grids,  *)
+(* none of the 189790 single-cube fields).  The predicate characterises exactly    *)
+(* that class: the twinned faces lie flat in a grid plane and the mesh without     *)
+(* them is a closed manifold.                                                      *)
+TwinFaces(F) == LET rev == {Rotations(Flip(F[i])) : i \in DOMAIN F}
+                IN {i \in DOMAIN F : Rotations(F[i]) \in rev}
+FlatInGridPlane(p, V, f) ==
+  \E a \in Axes : /\ \A j \in 1..3 : OnLat(p, V[f[j]][a], a)
+                  /\ Near(p, V[f[1]][a], a) = Near(p, V[f[2]][a], a)
+                  /\ Near(p, V[f[1]][a], a) = Near(p, V[f[3]][a], a)
+MembranesOnlyAsBuilt(p, V, F) ==
+  LET M == TwinFaces(F)
+      rest == [i \in (DOMAIN F) \ M |-> F[i]]
+  IN /\ M # {}
+     /\ \A i \in M : FlatInGridPlane(p, V, F[i])
+     /\ ClosedManifold(DOMAIN V, rest)
 
 (* Six times the signed volume enclosed by a CLOSED mesh, in (1/q)^3 units, exact: by  *)
 (* the divergence theorem along the third axis, volume = sum over faces of (signed    *)
@@ -133,8 +155,9 @@ SignedVol6(V, F) == SumVol(V, F, 1, Len(F))
 (* spacings, "descent" over a region that is high inside gives a negative      *)
 (* signed volume ("left-hand rule"); "ascent", or a region low inside, flips   *)
 (* it; surface.py swaps two axes (`swapped`), which flips it once more.        *)
-ExpectedVolSign(p, dir, swapped) ==
-  (IF dir = "descent" THEN -1 ELSE 1) * (IF BoundaryLow(p) THEN 1 ELSE -1) * (IF swapped THEN -1 ELSE 1)
+VolSignFor(insideHigh, dir, swapped) ==
+  (IF dir = "descent" THEN -1 ELSE 1) * (IF insideHigh THEN 1 ELSE -1) * (IF swapped THEN -1 ELSE 1)
+ExpectedVolSign(p, dir, swapped) == VolSignFor(BoundaryLow(p), dir, swapped)
 Oriented(p, V, F, dir, swapped) == BSign(SignedVol6(V, F)) = ExpectedVolSign(p, dir, swapped)
 
 (* ---- enclosed volume of a sphere (convergence clause) ------------------------------ *)
@@ -230,12 +253,18 @@ InCell(p, v, c) == \A a \in Axes : /\ c[a] * Pitch(p, a) - p.tol <= v[a]
                                    /\ v[a] <= (c[a] + 1) * Pitch(p, a) + p.tol
 AxisCells(p, x, a) == IF OnLat(p, x, a) THEN {Near(p, x, a) - 1, Near(p, x, a)} ELSE {Flo(p, x, a)}
 CellsAt(p, v) == AxisCells(p, v[1], 1) \X AxisCells(p, v[2], 2) \X AxisCells(p, v[3], 3)
-Unprocessed(p, c, l) == InGridCell(p, c) /\ Rank(p, c) > l /\ CellStraddles(p, c)
-(* an open edge is legitimate while both its ends lie on a face shared with a *)
-(* straddling cell that is still to come                                      *)
-OpenEdgeOK(p, V, e, l) == \E c \in CellsAt(p, V[e[1]]) \cap CellsAt(p, V[e[2]]) : Unprocessed(p, c, l)
-SweepInvAt(p, V, b, l) == \A e \in b : OpenEdgeOK(p, V, e, l)
-SweepInv(p, V) == SweepInvAt(p, V, bnd, last)                      \* the inductive invariant
+(* An open edge is legitimate while both its ends lie on a face shared with a  *)
+(* straddling cell that is still to come.  Its deadline is the highest rank of  *)
+(* a straddling cell containing both ends (-1 when there is none); it is stored *)
+(* with the edge when the edge enters `bnd` (elements <<from, to, deadline>>),   *)
+(* so that the invariant is an integer comparison.                               *)
+EdgeDeadline(p, V, a, b) ==
+  LET rs == {Rank(p, c) : c \in {c \in CellsAt(p, V[a]) \cap CellsAt(p, V[b]) : InGridCell(p, c) /\ CellStraddles(p, c)}}
+  IN IF rs = {} THEN -1 ELSE CHOOSE r \in rs : \A x \in rs : x <= r
+OpenEdgeOK(p, V, e, l) == EdgeDeadline(p, V, e[1], e[2]) > l
+SweepInvAt(b, l) == \A e \in b : e[3] > l
+SweepInv == SweepInvAt(bnd, last)                                  \* the inductive invariant
+DeadlinesRight(p, V) == \A e \in bnd : e[3] = EdgeDeadline(p, V, e[1], e[2])
 (* the patch of cell c uses only vertices of that cell *)
 PatchLocal(p, V, c, patch) ==
   /\ InGridCell(p, c)
@@ -244,11 +273,15 @@ PatchLocal(p, V, c, patch) ==
 CanProcess(p, c, patch) == /\ Rank(p, c) > last
                            /\ Cardinality(DirEdges(patch)) = 3 * Len(patch)
                            /\ DirEdges(patch) \cap seen = {}
-BndAfter(patch) == LET u == bnd \cup DirEdges(patch) IN {e \in u : <<e[2], e[1]>> \notin u}
-ProcessCell(p, c, patch) == /\ CanProcess(p, c, patch)
-                            /\ seen' = seen \cup DirEdges(patch)
-                            /\ bnd' = BndAfter(patch)
-                            /\ last' = Rank(p, c)
+BndAfter(p, V, patch) ==
+  LET u == bnd \cup {<<e[1], e[2], EdgeDeadline(p, V, e[1], e[2])>> : e \in DirEdges(patch)}
+  IN {e \in u : <<e[2], e[1], e[3]>> \notin u}
+ProcessCellTo(p, c, patch, nb) ==       \* nb = BndAfter(p, V, patch), computed once by the caller
+  /\ CanProcess(p, c, patch)
+  /\ seen' = seen \cup DirEdges(patch)
+  /\ bnd' = nb
+  /\ last' = Rank(p, c)
+ProcessCell(p, V, c, patch) == ProcessCellTo(p, c, patch, BndAfter(p, V, patch))
 SweepClosed == bnd = {}          \* with `seen` duplicate free this is ClosedManifold of the whole mesh
 
 (* ---- a reference mesher (design level) -------------------------------------------- *)
